@@ -516,8 +516,20 @@ class Exprs:
         self.max_depth = max_depth
 
     def place(self, pl, depth, stack):
+        projs = pl["p"]
+        up = getattr(self, "upvars", None)
+        if up and pl["l"] == 1:
+            # closure body: `env.N` is what the enclosing function captured as its N-th upvar - continue in the enclosing function's tree
+            rest = [p for p in projs if p != "*"]
+            if rest and isinstance(rest[0], dict) and rest[0].get("f", "").isdigit() and not rest[0].get("of") and rest[0]["f"] in up:
+                e = up[rest[0]["f"]]
+                i0 = projs.index(rest[0])
+                return self._project(e, projs[i0 + 1:])
         e = self.local(pl["l"], depth, stack)
-        for p in pl["p"]:
+        return self._project(e, projs)
+
+    def _project(self, e, projs):
+        for p in projs:
             if p == "*":
                 continue
             if isinstance(p, dict):
@@ -696,9 +708,9 @@ def as_cmp(e):
     return None
 
 
-def switch_conditions(fn, max_depth=24):
+def switch_conditions(fn, max_depth=24, ex=None):
     """For every live switch block: (block, expr tree of the discriminant, arms, else)."""
-    ex = Exprs(fn, max_depth)
+    ex = ex or Exprs(fn, max_depth)
     out = []
     live = live_blocks(fn)
     for bi, b in enumerate(fn["blocks"]):
